@@ -29,7 +29,7 @@ namespace vh
     static std::string forcing(Tok& t, std::size_t ncell, std::size_t ns);
     static std::string forcingflat(Tok& t, std::size_t ncell, std::size_t ns);
     static std::string norm(Tok& t, std::size_t ncell, std::size_t ns);
-    static std::string rates(Tok& t, std::size_t ncell, std::size_t nproc, bool reuse = false);
+    static std::string rates(Tok& t, std::size_t ncell, std::size_t nproc, bool reuse = false, bool positional = false);
     static std::string cpassign(Tok& t, std::size_t ns, std::size_t ncell);
   };
 
